@@ -444,7 +444,17 @@ func (fx *FnExec) applyContract(fr *frame, st *State, fc *FuncContract, callee *
 		vars[l.Name] = pre.Eval(l.Expr)
 		pre.vars[l.Name] = vars[l.Name]
 	}
+	logical := map[string]bool{}
+	for _, lg := range fc.Logical {
+		logical[lg.Name] = true
+	}
 	for k, rq := range fc.Requires {
+		if len(logical) > 0 && mentionsIdent(rq.Expr, logical) {
+			// the clause speaks about a ghost (logical) variable of the callee: a representation
+			// invariant "there is such a ghost value"; it cannot be checked at the call site and is assumed
+			fx.note("precondition of " + key + " over its logical variables is assumed at call sites (representation invariant): " + rq.Src)
+			continue
+		}
 		g := fx.evalCallClause(pre, rq, "requires of "+key)
 		fx.obligeNamed(fr, st, fmt.Sprintf("call%d:%s/requires/%d", fx.callSeq, shortKey(key), k+1), "requires", pos, g, "precondition of "+key+": "+rq.Src)
 	}
@@ -483,6 +493,9 @@ func (fx *FnExec) applyContract(fr *frame, st *State, fc *FuncContract, callee *
 	}
 	post := mkEnv(st, old)
 	for _, en := range fc.Ensures {
+		if len(logical) > 0 && mentionsIdent(en.Expr, logical) {
+			continue
+		}
 		if fx.eng.mentionsCallTrace(en.Expr) {
 			// the clause speaks about calls made INSIDE the callee; it is meaningless in the caller's trace
 			continue
@@ -1195,4 +1208,20 @@ func (fx *FnExec) spawnRequires(fr *frame, st *State, g *ssa.Go) {
 		gl := fx.evalCallClause(env, rq, "requires of "+key)
 		fx.obligeNamed(fr, st, fmt.Sprintf("go%d:%s/requires/%d", fx.callSeq, shortKey(key), k+1), "requires", g.Pos(), gl, "precondition of spawned "+key+": "+rq.Src)
 	}
+}
+
+// mentionsIdent: the expression mentions one of the identifiers.
+func mentionsIdent(x *CExpr, names map[string]bool) bool {
+	if x == nil {
+		return false
+	}
+	if x.Op == "ident" && names[x.Name] {
+		return true
+	}
+	for _, a := range x.Args {
+		if mentionsIdent(a, names) {
+			return true
+		}
+	}
+	return false
 }
